@@ -61,7 +61,8 @@ def oracle(fal, S, A, R, rep):
         got = fal.get_rewards(Sx, Ax)
         data = fus.join_channel_data([Sx, Ax], skip_channels=[2])
         Cp = fus.predict(data, skip_channels=[2])
-        cen = fus.get_channel_centers(2)
+        # the reference is the reward module's own current centres (not FusionART's accessor, which FALCON itself uses)
+        cen = fus.modules[2].get_cluster_centers()
         if not all(np.array_equal(got[i], cen[int(Cp[i])]) for i in range(len(Cp))):
             f("get_rewards", "get_rewards is not the reward-channel centre of the category predicted with the reward channel withheld")
         # greedy action over a supplied action space (raw actions in [0,1]; the action module has unit bounds)
